@@ -119,3 +119,11 @@ claim("C18",
       "Termination of the bisection is NOT proved (a non-termination defect was found by the bounded probe and fixed); numba RNG separate from numpy's (assumed, probed); "
       "non-empty mask and calib < extent preconditions.",
       "contract-based deductive verification (symbolic execution with one generic loop iteration, static frame obligations, z3) + bounded native probe")
+
+claim("C19",
+      "For abrm, abrm_nd, abrm_hp and optcont.blochsim the real time loop is treated with an inductive invariant (loop rewritten to one generic iteration): "
+      "the step is a linear map of (alpha, beta) whose 2x2 coefficient matrix has orthogonal columns of unit norm (abrm_hp, blochsim) resp. equal norm <= 1 "
+      "(abrm, abrm_nd with the eps regulariser), does not mix alpha and beta for a zero RF sample, the initial state is (1, 0), and the epilogue is a unitary "
+      "diagonal map; with the algebra lemma (proved) this gives |alpha|^2+|beta|^2 = 1 (<= 1) for every waveform, length and position, and composition.",
+      "abrm_ptx and the inverse-SLR round trip are bounded-only (native probe); the lower bound of the eps contraction is bounded-only; cos/sin via c^2+s^2=1.",
+      "contract-based deductive verification (inductive loop invariant on the real loop body executed on linear-form state; z3 QF_NRA) + bounded native probe")
